@@ -597,6 +597,19 @@ fn hostile_cert_params(class: &str, bg: &str) -> CertificateParams {
 		c if c.starts_with("custom-oid") => p.custom_extensions = vec![CustomExtension::from_oid_content(&hostile_oid(c), vec![5, 0])],
 		c if c.starts_with("eku-oid") => p.extended_key_usages = vec![ExtendedKeyUsagePurpose::Other(hostile_oid(c))],
 		c if c.starts_with("dntype-oid") => p.distinguished_name.push(DnType::CustomDnType(hostile_oid(c)), "v"),
+		c if c.starts_with("ncdirperm-oid") || c.starts_with("ncdirexcl-oid") => {
+			let mut dn = DistinguishedName::new();
+			dn.push(DnType::OrganizationName, "o");
+			dn.push(DnType::CustomDnType(hostile_oid(c)), "v");
+			let st = vec![GeneralSubtree::DnsName("ok.example".into()), GeneralSubtree::DirectoryName(dn)];
+			let mut nc = p.name_constraints.take().unwrap_or(NameConstraints { permitted_subtrees: vec![], excluded_subtrees: vec![] });
+			if c.starts_with("ncdirperm") {
+				nc.permitted_subtrees.extend(st);
+			} else {
+				nc.excluded_subtrees.extend(st);
+			}
+			p.name_constraints = Some(nc);
+		},
 		c if c.starts_with("othername-oid") => p.subject_alt_names = vec![SanType::OtherName((hostile_oid(c), "v".into()))],
 		"custom-content-empty" => p.custom_extensions = vec![CustomExtension::from_oid_content(&[1, 2, 3, 4], vec![])],
 		"custom-content-malformed" => p.custom_extensions = vec![CustomExtension::from_oid_content(&[1, 2, 3, 4], vec![0x30, 0x82, 0xff])],
